@@ -173,7 +173,8 @@ OpenCont ==
                                /\ gstack' = Append(gstack, Frame("list", "", nm, EnvHead))
      \/ /\ CanFollow(TopG, Grp("{", <<>>, <<>>))
         /\ gstack' = Append(gstack, Frame("group", "{", <<>>, NoHead))
-     \/ \E mk \in MathKinds : /\ ~InMath /\ CanFollow(TopG, Math(mk, <<>>))
+     \/ \E mk \in MathKinds : /\ TopG.ck # "math" /\ (InMath => TopG.ck \in {"arg", "group"})    \* G6: not directly in math; fine inside an argument / group there
+                               /\ CanFollow(TopG, Math(mk, <<>>))
                                /\ gstack' = Append(gstack, Frame("math", mk, <<>>, NoHead))
      \/ \E nm \in MEnvNames : /\ ~InMath /\ CanFollow(TopG, Env(nm, <<>>, <<>>))
                                /\ gstack' = Append(gstack, Frame("math", "menv", nm, EnvHead))
